@@ -10,6 +10,11 @@ package gi
 // C17, package-wide: a function that takes a sync lock itself has released it
 // again on every normal return path (directly or through a deferred call).
 //@ every-function gi lock-balance
+// C17, package-wide: a function that asks for the process-wide printer (slip.DefaultPrinter()) works on
+// a copy: it never stores through that pointer and never hands it to a function that stores to Printer
+// fields. Print settings a routine binds stay its own; what one routine prints cannot change what
+// another prints.
+//@ every-function gi shared-printer-kept
 
 // C07, package-wide: a function that evaluates Lisp forms itself forwards the
 // return-from / go marker an evaluation hands back: nothing more is evaluated
